@@ -59,6 +59,7 @@ func c08Cases(tier string, seed int64) []core.Case {
 			cb := cb
 			cases = append(cases, core.Case{ID: fmt.Sprintf("slow-callback/%s/maxpend=%d", cb, mp), Run: func(ctx *core.Ctx) core.Result { return c08SlowCallback(ctx.Seed, mp, cb) }})
 		}
+		cases = append(cases, core.Case{ID: fmt.Sprintf("same-fid/maxpend=%d", mp), Run: func(ctx *core.Ctx) core.Result { return c08SameFid(ctx.Seed, mp) }})
 		cases = append(cases, core.Case{ID: fmt.Sprintf("client-tag-interface/maxpend=%d", mp), Run: func(ctx *core.Ctx) core.Result { return c08ClientTag(ctx.Seed, mp) }})
 		_ = c08StalledClient
 		cases = append(cases, core.Case{ID: fmt.Sprintf("slow-fiddestroy/maxpend=%d", mp), Run: func(ctx *core.Ctx) core.Result { return c08SlowDestroy(ctx.Seed, mp) }})
@@ -698,6 +699,17 @@ func c08SlowCallback(seed int64, maxpend int, cb string) core.Result {
 		for i := 0; i < 1+round%3; i++ {
 			free = append(free, &wire.Msg{Type: wire.Tstat, Fid: e.root, Tag: e.next()})
 		}
+		// … and one that names the very fid the slow request is working on (another tag all the same)
+		switch cb {
+		case "AuthRead":
+			free = append(free, &wire.Msg{Type: wire.Twrite, Fid: afid, Offset: 0, Count: 2, Data: []byte("pw"), Tag: e.next()})
+		case "AuthWrite":
+			free = append(free, &wire.Msg{Type: wire.Tread, Fid: afid, Offset: 0, Count: 8, Tag: e.next()})
+		case "SrvReqProcess", "SrvReqRespond":
+			if slow.Fid == e.root {
+				free = append(free, &wire.Msg{Type: wire.Twalk, Fid: e.root, Newfid: 900 + uint32(round), Tag: e.next()})
+			}
+		}
 		_ = c.Send(free...)
 		om := &wire.Msg{Type: wire.Tstat, Fid: other.root, Tag: other.next()}
 		_ = other.c.Send(om)
@@ -908,5 +920,94 @@ func c08ClientTag(seed int64, maxpend int) core.Result {
 		res.Sig(fmt.Sprintf("client-tag|k=%d|mp=%d", k, maxpend))
 	}
 	res.Sample(map[string]interface{}{"scenario": "go9p client Tag interface against the go9p server, first request of the group held", "maxpend": maxpend})
+	return res
+}
+
+// c08SameFid: the blocked request and the requests that must not wait for it name the SAME fid (different tags): a
+// read blocked in the implementation does not delay a stat, a write, another read or a clone of that fid.
+func c08SameFid(seed int64, maxpend int) core.Result {
+	var res core.Result
+	s, e, other, ok := c08setup(Config{Dotu: true, Msize: 8192, Maxpend: maxpend})
+	if !ok {
+		res.Inconclusive = "c08: setup failed"
+		return res
+	}
+	c := e.c
+	blockers := []func(f uint32) *wire.Msg{
+		func(f uint32) *wire.Msg { return &wire.Msg{Type: wire.Tread, Fid: f, Offset: 0, Count: 32} },
+		func(f uint32) *wire.Msg { return &wire.Msg{Type: wire.Tstat, Fid: f} },
+		func(f uint32) *wire.Msg {
+			return &wire.Msg{Type: wire.Twrite, Fid: f, Offset: 0, Count: 3, Data: []byte("abc")}
+		},
+		func(f uint32) *wire.Msg {
+			return &wire.Msg{Type: wire.Twstat, Fid: f, Stat: wire.Stat{Name: "n", Mode: 0o644, Nuid: wire.NOUID, Ngid: wire.NOUID, Nmuid: wire.NOUID}}
+		},
+	}
+	for round := 0; round < 8 && len(res.Violations) == 0; round++ {
+		f := uint32(1200 + 4*round)
+		if !e.ok(&wire.Msg{Type: wire.Twalk, Fid: e.root, Newfid: f, Wname: []string{"f"}}) || !e.ok(&wire.Msg{Type: wire.Topen, Fid: f, Mode: 2}) {
+			res.Inconclusive = "c08: setup walk/open failed"
+			break
+		}
+		slow := blockers[round%len(blockers)](f)
+		slow.Tag = e.next()
+		p := script.NewPlan()
+		p.Gate = make(chan struct{})
+		p.Entered = make(chan struct{})
+		s.Ops.SetPlan(c.ID, slow.Tag, p)
+		_ = c.Send(slow)
+		select {
+		case <-p.Entered:
+		case <-time.After(W):
+			res.Inconclusive = "c08: blocker never started"
+			close(p.Gate)
+			return res
+		}
+		res.Evals++
+		free := []*wire.Msg{
+			{Type: wire.Tstat, Fid: f, Tag: e.next()},
+			{Type: wire.Tread, Fid: f, Offset: 100, Count: 16, Tag: e.next()},
+			{Type: wire.Twrite, Fid: f, Offset: 50, Count: 2, Data: []byte("zz"), Tag: e.next()},
+			{Type: wire.Tstat, Fid: e.root, Tag: e.next()},
+		}
+		_ = c.Send(free...)
+		om := &wire.Msg{Type: wire.Tstat, Fid: other.root, Tag: other.next()}
+		_ = other.c.Send(om)
+		late := false
+		deadline := time.Now().Add(W)
+		for _, m := range free {
+			if rp, err := c.WaitTag(m.Tag, time.Until(deadline)); err != nil || rp.Msg == nil {
+				late = true
+			}
+		}
+		_, oerr := other.c.WaitTag(om.Tag, time.Until(deadline))
+		close(p.Gate)
+		det := map[string]interface{}{"maxpend": maxpend, "blocked": slow.String(), "same_fid": f}
+		if late {
+			answered := true
+			for _, m := range free {
+				if rp, err := c.WaitTag(m.Tag, W); err != nil || rp.Msg == nil {
+					answered = false
+				}
+			}
+			if answered {
+				res.Violate(fmt.Sprintf("C08;head-of-line;same-fid;%s;maxpend=%d", wire.TypeName(slow.Type), maxpend), "requests with other tags naming the same fid were answered only after the request blocked in the implementation was released", det)
+			} else {
+				res.Inconclusive = "c08: requests never answered"
+			}
+		}
+		if oerr != nil {
+			if rp, err := other.c.WaitTag(om.Tag, W); err == nil && rp.Msg != nil {
+				res.Violate(fmt.Sprintf("C08;head-of-line;same-fid;other-conn;maxpend=%d", maxpend), "a request on another connection waited for a blocked request", det)
+			}
+		}
+		c.WaitTag(slow.Tag, W)
+		c.Quiesce(W)
+		e.ok(&wire.Msg{Type: wire.Tclunk, Fid: f})
+		res.Sig(fmt.Sprintf("samefid|%s|mp=%d", wire.TypeName(slow.Type), maxpend))
+	}
+	res.Sample(map[string]interface{}{"scenario": "blocked request and free requests name the same fid", "maxpend": maxpend})
+	e.c.Hangup()
+	other.c.Hangup()
 	return res
 }
